@@ -262,6 +262,9 @@ func GenSched(r *sim.Rng, thorough bool) sim.SchedParams {
 	if r.Bool(0.35) {
 		p.YieldUnlock = []float64{0.05, 0.15, 0.4}[r.Intn(3)]
 	}
+	if r.Bool(0.3) {
+		p.YieldWrite = []float64{0.05, 0.2, 0.5}[r.Intn(3)]
+	}
 	p.MaxSteps = 60000
 	p.MaxSimSec = 3600
 	return p
